@@ -50,6 +50,9 @@ import (
 )
 
 func exec(op string) string {
+	if strings.HasPrefix(op, "r=") {
+		return execReal(op)
+	}
 	parts := strings.Split(op, ";")
 	if len(parts) < 1 || !strings.HasPrefix(parts[0], "m=") {
 		return "bad-op"
@@ -262,6 +265,9 @@ func pre(emit func(op string), thorough bool) {
 }
 
 func gen(r *vh.Rand) string {
+	if (vh.Thorough && r.Chance(1, 8)) || r.Chance(1, 30) { // real serve loop (slower: goroutines, PING round trips)
+		return genReal(r)
+	}
 	adv := r.Pick("1", "2", "3", "3", "5", "100")
 	n := r.Range(1, 14)
 	if r.Chance(1, 5) {
